@@ -1,5 +1,6 @@
 import PyaModel.Proofs.C01
 import PyaModel.Proofs.C01Composite
+import PyaModel.Proofs.C01CmpChain
 /-!
 # Props/C01 — inferred values are sound with respect to execution (stages S1, S2a, S1b, S1c, S3a: the MiniPy fragment)
 
@@ -322,5 +323,46 @@ example : ((⟨[], []⟩ : CompState).touch addCompositeLo addCompositeHiOff [0,
 example : [0, 1] ∉ (((⟨[], []⟩ : CompState).touch addCompositeLo addCompositeHiOff [0, 1]).assign
     addCompositeLo addCompositeHiOff [0]).live :=
   composite_assign_invalidates _ [0] [0, 1] (wf_touch _ _ _ _ (wf_empty _ _)) (by decide)
+
+/-! ## chained comparisons as tests (`Core/CmpChain.lean`)
+
+`visit_Compare` builds the conjunction of the constraints of ALL links of `e0 op1 e1 op2 e2 …`, the non-narrowing ones
+(`NULL_CONSTRAINT`) included. The model (`Chain.Test`: chains of links under `not`; variables ranging over unions of
+int / str / None literals) is compared with what pyanalyze infers in both branches of generated `if` statements
+(stream `chain`), its run-time reading with CPython (stream `chainEval`). -/
+
+open Chain in
+/-- **Both branches are sound** (full strength, every test of the chain fragment): if the run-time values of the
+variables are in the scope before the test, they are in the scope of the branch that is taken — the `if`-branch when
+the test is true, the `else`-branch (also: the body of `while not …`, the code after `assert`-failure paths) when it is
+false. `ω` gives the truth values of the links that narrow nothing. -/
+theorem chain_branches_sound (ρ : Chain.Var → Lit) (ω : Nat → Bool) (sc : Chain.Scope) (t : Chain.Test)
+    (hs : sc.has ρ) :
+    (t.eval ρ ω = true → (t.branches sc).1.has ρ) ∧ (t.eval ρ ω = false → (t.branches sc).2.has ρ) :=
+  branches_sound ρ ω sc t hs
+
+open Chain in
+/-- a chain with a link that narrows nothing (`x < hi`, `f(x) == 1`) leaves the scope of its else-branch as it was:
+the chain may have failed because of that link alone -/
+theorem chain_else_unchanged_of_opaque_link (sc : Chain.Scope) (ls : List Link) (h : Link.opaque ∈ ls) :
+    ((Chain.Test.chain ls).branches sc).2 = sc :=
+  chain_else_unchanged sc ls h
+
+open Chain in
+/-- the non-narrowing links must stay in the conjunction: without them (`chainConDropNull`) the else-branch of
+`0 < x < hi` with `x : Literal[0, 1]` is narrowed to `Literal[0]`, although `x = 1`, `hi = 1` takes that branch -/
+theorem chain_drop_null_witness :
+    let links := [Link.narrowing 0 (.ord .gt (.int 0)) true, Link.opaque]
+    let sc : Chain.Scope := [(0, [.int 0, .int 1])]
+    let ρ : Chain.Var → Lit := fun _ => .int 1
+    let ω : Nat → Bool := fun _ => false
+    sc.has ρ ∧ (Chain.Test.chain links).eval ρ ω = false ∧
+    narrow sc (chainConDropNull links).invert.apply = [(0, [.int 0])] ∧
+    ((Chain.Test.chain links).branches sc).2 = sc := by
+  refine ⟨?_, by decide, by decide, by decide⟩
+  intro e he
+  simp only [List.mem_singleton] at he
+  subst he
+  decide
 
 end Pya.C01
